@@ -13,13 +13,17 @@ THEOREMS = [
     "GoaktVerif.C46.partition_correct",
     "GoaktVerif.C46.BlInv.step",
     "GoaktVerif.C46.balance_correct",
+    "GoaktVerif.C46.broadcast_cancel_correct",
+    "GoaktVerif.C46.partition_cancel_correct",
+    "GoaktVerif.C46.zipEmit_spec",
+    "GoaktVerif.C46.zip_correct",
     "GoaktVerif.C46.C46_holds",
 ]
 INPKG = ["stream/zz_verif_c45.go", "stream/zz_verif_c46.go"]
 TIMEOUT = 900
 MANIFEST = {
-    "level_text": "Kernel-checked theorems on state-machine models of the junction actors, each for EVERY sequence of messages after the stageWire (any demand pattern, any arrival order, completion at any time): Merge and Concat forward sub-values in arrival order and complete only after everything that arrived was sent, and a completed Merge output is an interleaving (inductive predicate Interleave) of the per-source arrival sequences (merge_correct, concat_correct, interleave_projs); the Broadcast hub sends every element to every branch in order (broadcast_correct); the Partition hub sends branch i exactly the elements whose selector is i (partition_correct); the Balance hub (after fix 61853f2: elements that find no demand are buffered) sends, for every message sequence including slot cancellations, each handled element to exactly one branch in arrival order, and tells the branches streamComplete only after everything was sent, at which point the input is an interleaving of the branch sequences (BlInv.step, balance_correct). All clauses together: C46_holds. The judge's interleaving decision procedure is certificate producing and the certificate check is proved sound (checkWitness_sound, isInterleaving_sound).",
-    "level_note": "Partial: Zip is tied by the differential and judged by the oracle but has no theorem; the Concat theorem is about arrival order (that arrivals come source by source follows from sub-source i+1 being materialized only after sub-source i reported done, which is in the model's step function but not composed with sub-pipeline models); hub theorems for Broadcast/Partition exclude slotCancel; sub-pipelines, slot actors and sinks are not composed into one network theorem (slot actors are pure relays, tied by replay). Trusted: Lean kernel; the differential (per-actor message replay of the real junction actors between probe actors; end-to-end runs of the real junctions judged by Spec.C46).",
+    "level_text": "Kernel-checked theorems on state-machine models of the junction actors, each for EVERY sequence of messages after the stageWire (any demand pattern, any arrival order, completion at any time): Merge and Concat forward sub-values in arrival order and complete only after everything that arrived was sent, and a completed Merge output is an interleaving (inductive predicate Interleave) of the per-source arrival sequences (merge_correct, concat_correct, interleave_projs); the Broadcast hub sends every element to every branch in order (broadcast_correct); the Partition hub sends branch i exactly the elements whose selector is i (partition_correct); the Balance hub (after fix 61853f2: elements that find no demand are buffered) sends, for every message sequence including slot cancellations, each handled element to exactly one branch in arrival order, and tells the branches streamComplete only after everything was sent, at which point the input is an interleaving of the branch sequences (BlInv.step, balance_correct). Zip pairs positionally for every message sequence (zip_correct: the i-th components of the tuples sent, followed by slot i's buffer, are slot i's arrivals in order); Broadcast and Partition also with slot cancellation anywhere (a live branch has everything, a cancelled one a prefix). All clauses together: C46_holds. The judge's interleaving decision procedure is certificate producing and the certificate check is proved sound (checkWitness_sound, isInterleaving_sound).",
+    "level_note": "Partial: the Concat theorem is about arrival order (that arrivals come source by source follows from sub-source i+1 being materialized only after sub-source i reported done, which is in the model's step function but not composed with sub-pipeline models); sub-pipelines, slot actors and sinks are not composed into one network theorem (slot actors are pure relays, tied by replay). Trusted: Lean kernel; the differential (per-actor message replay of the real junction actors between probe actors; end-to-end runs of the real junctions judged by Spec.C46).",
     "technique": "Lean 4 proof (invariants over every message order) on hand-written junction-actor models, tied to the Go code by deterministic per-actor message replay and end-to-end runs judged by a certificate-producing interleaving checker",
 }
 TRUSTED = [
